@@ -1,4 +1,4 @@
-import UralModel.Lemmas.FacebookShapes
+import UralModel.Lemmas.FacebookBridge
 /-!
 # C19, part `facebook` — `ural/facebook.py` is total and agrees with the urls it builds
 
@@ -249,6 +249,27 @@ theorem reparse_url_partial (r : Parsed) (h : reparsable r = true) : Reparses r 
       simpa [h.2] using this
     · simp only [reparsable, Bool.false_eq_true] at h
 
+/-- **round trip of what the parser returns, proved part**: for every string and both values
+of `allow_relative_urls`, if `parse_facebook_url` returns a record whose fields are made of
+ordinary characters (`fieldsOk`: the fields that go to the path of the canonical url are not
+empty, not `.`/`..`, without `/ ? # ;` and white space; those that go to its query are not
+empty, without `& # + %` TAB CR LF) and which is not one of the two shapes of the known findings
+(`findingShape`: a handle starting with `people`, an album id containing `a.`), then `.url`
+returns a url and parsing that url gives the same record.  That no earlier route of the parser
+takes the canonical url is *derived* from the fact that none took the original one. -/
+theorem reparse_of_parse_partial (url : Str) (rel : Bool) (r : Parsed)
+    (h : parse_facebook_url url rel = .ok (some r))
+    (hf : fieldsOk r = true) (hn : findingShape r = false) : Reparses r := by
+  have hr : reparsable r = true := by
+    rw [parse_facebook_url_eq] at h
+    split at h
+    · cases h
+    · split at h
+      · cases h
+      · rename_i u' _ sp hsp
+        exact parseSplit_reparsable sp r (safe_urlsplit_path_abs _ sp hsp) h hf hn
+  exact reparse_url_partial r hr
+
 instance {α : Type} [DecidableEq α] : DecidableEq (Except Err α) := fun a b =>
   match a, b with
   | .ok x, .ok y => if h : x = y then isTrue (by rw [h]) else isFalse (fun e => h (by cases e; rfl))
@@ -300,7 +321,18 @@ theorem excluded_shapes_fail :
     parse_facebook_url "https://www.facebook.com/nasa/photos/aa../5".toList false
       = .ok (some (.photo "5".toList none none (some "nasa".toList) (some "a.".toList))) ∧
     parse_facebook_url "https://www.facebook.com/nasa/photos/a.a./5".toList false
-      = .ok (some (.photo "5".toList none none (some "nasa".toList) (some []))) := by
+      = .ok (some (.photo "5".toList none none (some "nasa".toList) (some []))) ∧
+    -- outside `fieldsOk`: a dot segment, an empty `;params`, an escaped `&` in a query value
+    parse_facebook_url "https://www.facebook.com/..".toList false = .ok (some (.handle "..".toList)) ∧
+    (Parsed.handle "..".toList).url = .ok (some "https://www.facebook.com/".toList) ∧
+    parse_facebook_url "https://www.facebook.com/".toList false = .ok none ∧
+    parse_facebook_url "https://www.facebook.com/a;".toList false = .ok (some (.handle "a;".toList)) ∧
+    (Parsed.handle "a;".toList).url = .ok (some "https://www.facebook.com/a".toList) ∧
+    parse_facebook_url "https://www.facebook.com/watch?v=a%26b".toList false
+      = .ok (some (.video "a&b".toList none)) ∧
+    (Parsed.video "a&b".toList none).url = .ok (some "https://www.facebook.com/watch/?v=a&b".toList) ∧
+    parse_facebook_url "https://www.facebook.com/watch/?v=a&b".toList false
+      = .ok (some (.video "a".toList none)) := by
   decide +kernel
 
 /-! ## non-vacuity -/
